@@ -332,8 +332,19 @@ def checker_obligations(facts, families=None):
             if deleg is not None and deleg in cur and all(it in cur[deleg]["items"] for it in want["items"]):
                 out.append(ob("validators.checker", k0, cur[deleg]["pat"], "discharged", "%s now delegates to %s, which performs the same guards" % (key, deleg), cur[deleg]["qname"]))
                 continue
-            out.append(ob("validators.checker", k0, "", "unrecognised", "checker %s is no longer a plain list of throwing guards (or is gone): re-review spec/checkers.json" % key, ""))
-            continue
+            # a renamed checker: the only pure checker of the same class and arity that the reviewed table does not know
+            base = key.split("@")[0]
+            cls, ar = base.rsplit("::", 1)[0], base[base.rindex("("):]
+            gone_name = base.rsplit("::", 1)[1].split("(")[0]
+            still = any(f2.get("rect") and short(f2["rect"]) == cls and f2["name"] == gone_name for f2 in functions_by(facts).values())
+            ren = [k2 for k2 in cur if k2 not in sp and k2.split("@")[0].rsplit("::", 1)[0] == cls and k2.split("@")[0].endswith(ar)]
+            shape0 = lambda it: (it.split("|")[1] if it.count("|") >= 1 else "")
+            ren = [k2 for k2 in ren if sorted(shape0(i) for i in cur[k2]["items"]) == sorted(shape0(i) for i in want["items"])]
+            if not still and len(ren) == 1:
+                cur[key] = cur[ren[0]]
+            else:
+                out.append(ob("validators.checker", k0, "", "unrecognised", "checker %s is no longer a plain list of throwing guards (or is gone): re-review spec/checkers.json" % key, ""))
+                continue
         got = list(cur[key]["items"])
         for j, item in enumerate(want["items"]):
             k = "%s:%s#%d" % (k0, item.split("|")[0], j)
